@@ -223,3 +223,38 @@ Definition str_m : bytes := [x01; x00; x00; x00; x6d].
 Definition str_v : bytes := [x01; x00; x00; x00; x76].
 Fixpoint nested_m (n : nat) : bytes :=
   match n with O => str_v | S n' => str_m ++ nested_m n' end.
+
+(* ================= 2. recursion depth of the signature parser ================= *)
+(* decl_m (S f) hands decl_m f to the rules for maps, lists and tuples, and decl_m 0 answers NoFuel,
+   which every combinator passes on: with fuel d the model answers NoFuel exactly when parsing s would
+   enter the type rule more than d times inside one another.  (decl, the pinned grammar, answers the
+   same: SigParseMerged.decl_m_decl.) *)
+Definition parse_within (d : nat) (s : string) : bool :=
+  match fst (decl_m d s) with NoFuel => false | _ => true end.
+
+(* the first of d, d + 1, ..., d + k - 1 that is enough (d + k if none is) *)
+Fixpoint least_from (k d : nat) (s : string) : nat :=
+  match k with
+  | O => d
+  | S k' => if parse_within d s then d else least_from k' (S d) s
+  end.
+
+(* the number of nested entries of the type rule signature.Parse makes on s: Parse runs the rule with
+   fuel |s| + 1, which is always enough (SigParseMerged.parse_m_total) *)
+Definition parse_depth (s : string) : nat := least_from (S (String.length s)) 0 s.
+
+Definition is_open (c : ascii) : bool := (Ascii.eqb c "(" || Ascii.eqb c "[" || Ascii.eqb c "{")%char.
+(* the opening brackets of a text *)
+Fixpoint opens (s : string) : nat :=
+  match s with
+  | EmptyString => 0
+  | String c r => (if is_open c then 1 else 0) + opens r
+  end%nat.
+
+(* the family of the finding sig_parse_stack_unbounded *)
+Fixpoint brackets (n : nat) : string :=
+  match n with O => EmptyString | S n' => String "["%char (brackets n') end.
+(* and a signature that parses: n lists around an int32 *)
+Fixpoint closes (n : nat) : string :=
+  match n with O => EmptyString | S n' => String "]"%char (closes n') end.
+Definition nested_list (n : nat) : string := (brackets n ++ "i" ++ closes n)%string.
